@@ -62,7 +62,7 @@ def planted(seed, n):
                          "not_aggregated", "unknown_c", "unknown_tbl", "reselect_hidden", "rename_dup", "rename_dup2",
                          "slice_grouped", "marker_outside", "marker_nested", "join_grouped", "join_same_origin",
                          "join_suffix_dup", "join_suffix_dup_renamed", "join_nonbool_on", "join_window_on", "union_names", "union_grouped",
-                         "group_hidden"])
+                         "group_hidden", "case_cond_nonbool", "filter_kw_nonbool"])
         where = r.choice(["top", "arith", "case", "cast"])
         exp = None
         st = None
@@ -75,6 +75,25 @@ def planted(seed, n):
         elif rule == "type_in_kw":
             bad = ["fn", "add", [s, ["lit", 1]]]
             st = ["mutate", [["z_", ["fn", "sum", [a], {r.choice(["partition_by", "filter"]): [pos(bad, where) if True else bad]}]]]]
+            exp = "DataTypeError"
+        elif rule == "case_cond_nonbool":
+            # a non-boolean `when` condition, reached by table reference, by C.<name> or inside arithmetic, with branch values
+            # that are literals, table references or C.<name> in every combination (the types of the branches may be
+            # known before the condition's is)
+            cond = r.choice([a, ca, ["fn", "add", [ca, ["lit", 1]]], ["fn", "add", [a, ["lit", 1]]]])
+            val = r.choice([["lit", 1], a, ca])
+            dflt = r.choice([None, ["lit", 0], a, ca])
+            e = ["case", [[cond, val]], dflt]
+            st = r.choice([["mutate", [["z_", pos(e, r.choice(["top", "arith", "cast"]))]]],
+                           ["filter", [["fn", "is_null", [e]]]],
+                           ["summarize", [["z_", ["fn", "sum", [e]]]]]])
+            where = "case"
+            exp = "DataTypeError"
+        elif rule == "filter_kw_nonbool":
+            cond = r.choice([a, ca, ["fn", "add", [ca, ["lit", 1]]]])
+            agg = ["fn", r.choice(["sum", "max", "count"]), [r.choice([a, ca])], {"filter": [cond]}]
+            st = r.choice([["mutate", [["z_", agg]]], ["summarize", [["z_", agg]]]])
+            where = "top"
             exp = "DataTypeError"
         elif rule == "filter_nonbool":
             st = ["filter", [pos(num, where)]]
